@@ -291,7 +291,10 @@ func verifExportCfg(cfg *config) *VerifCfg {
 			sc := &act[i]
 			os := VerifScene{WaitUntilNs: int64(sc.waitUntil)}
 			for _, l := range sc.concurrentLines {
-				ol := VerifLine{Actor: l.actor.name}
+				ol := VerifLine{}
+				if l.actor != nil { // mood-change lines have no actor
+					ol.Actor = l.actor.name
+				}
 				for _, s := range l.steps {
 					ol.Steps = append(ol.Steps, VerifStep{Typ: int(s.typ), Action: s.action, FailOk: s.failOk})
 				}
